@@ -219,6 +219,50 @@ def run_unit(unit, tier):
         res.sample({"text": "é€", "algorithm": "SHA-256"})
     elif kind == "unknown":
         import fastavro._schema_common as sc
+        import os
+        import tempfile
+
+        # texts that happen to be the path of an existing file are texts; str subclasses are strings with the str's content
+        here = os.getcwd()
+        with tempfile.TemporaryDirectory(prefix="verif-c14-") as td:
+            for fname in ("int", "notes.txt", '"int"'):
+                with open(os.path.join(td, fname), "w") as f:
+                    f.write("something else entirely")
+            os.makedirs(os.path.join(td, "sub"))
+            with open(os.path.join(td, "sub", "x"), "w") as f:
+                f.write("{}")
+            try:
+                os.chdir(td)
+                for t in ("int", "notes.txt", '"int"', "sub/x", os.path.join(td, "int"), "sub", "."):
+                    _check_crc(res, fp, t, idxs)
+                    _check_digest(res, fp, t, "MD5")
+                    _check_digest(res, fp, t, "sha256")
+            finally:
+                os.chdir(here)
+
+        class Shouty(str):
+            def __str__(self):
+                return "SHOUT:" + str.upper(self)
+
+            def __repr__(self):
+                return "Shouty(%s)" % str.__repr__(self)
+
+        import enum
+
+        class Form(str, enum.Enum):
+            INT = '"int"'
+            REC = '{"name":"R","type":"record","fields":[]}'
+
+        for t in (Shouty('"int"'), Shouty("é"), Form.INT, Form.REC):
+            plain = str.__str__(t) if not isinstance(t, enum.Enum) else t.value
+            for name in ("CRC-64-AVRO", "MD5", "sha1"):
+                res.evals += 1
+                try:
+                    got, want = fp(t, name), fp(plain, name)
+                except Exception as e:
+                    got, want = f"raised {type(e).__name__}: {e}", None
+                if got != want:
+                    res.add(Violation("digest", f"str-subclass-differs:{name}", f"fingerprint of a str subclass instance holding {plain!r} under {name} = {got!r}, of the plain string {want!r}", {"kind": "crc", "text": plain}))
 
         # every public attribute name of hashlib that is not an advertised algorithm is an unknown algorithm name too
         for name in sorted(n for n in dir(hashlib) if n not in sc.FINGERPRINT_ALGORITHMS):
